@@ -1,5 +1,5 @@
 #!/usr/bin/env python3
-"""seed_eval.py <worktree> <Cxx> <A|B> [--props C01,C02]
+"""seed_eval.py <worktree> <Cxx> <A|B> [--props C01,C02] [--id C01C]
 Confirms a sub-agent's seeded change and records it under /verif/seeded/<Cxx><A|B>/ :
   1. in the scratch worktree: apply patch, full test suite (must be 116 passed), demo (must exit 1), revert, demo (must exit 0)
   2. on /repo: git apply, run the quick checks (all 19 unless --props), git checkout -- .   (never committed there)
@@ -26,7 +26,10 @@ def main():
         props = sys.argv[sys.argv.index("--props") + 1].split(",")
     patch = os.path.join(wt, "patch%s.diff" % which)
     demo = os.path.join(wt, "demo%s.py" % which)
-    meta = {"id": "%s%s" % (pid, which), "property": pid, "source": "independent sub-agent given only the property text and a scratch worktree"}
+    sid = "%s%s" % (pid, which)
+    if "--id" in sys.argv:
+        sid = sys.argv[sys.argv.index("--id") + 1]
+    meta = {"id": sid, "property": pid, "source": "independent sub-agent given only the property text and a scratch worktree"}
     sh("git checkout -- j1939", cwd=wt)
     rc, out = sh("git apply --check %s" % patch, cwd=wt)
     if rc:
@@ -53,16 +56,29 @@ def main():
         print("patch does not apply to /repo:", out)
         return 2
     fired = {}
+    import concurrent.futures as cf, tempfile
+    def summarize(rc, out):
+        lines = [l for l in out.splitlines() if "[R-" in l or "[O-" in l]
+        return {"exit": rc, "rules": sorted({l.split("[")[1].split("]")[0] for l in lines})[:6], "first": lines[0][:300] if lines else ""}
+    d = tempfile.mkdtemp(prefix="j1939se_")
     try:
-        for p in props:
-            rc, out = sh("./check %s --tier quick" % p, cwd=VERIF)
-            lines = [l for l in out.splitlines() if "[R-" in l or "[O-" in l]
-            fired[p] = {"exit": rc, "rules": sorted({l.split("[")[1].split("]")[0] for l in lines})[:6], "first": lines[0][:300] if lines else ""}
+        # the property's own check runs against /repo itself with the patch applied (as the brief prescribes) ...
+        rc, out = sh("./check %s --tier quick" % pid, cwd=VERIF)
+        fired[pid] = summarize(rc, out)
+        shutil.copytree("/repo/j1939", os.path.join(d, "j1939"))
     finally:
         sh("git -C /repo checkout -- .")
-    # restore evidence files of the clean tree
-    for p in props:
-        sh("./check %s --tier quick" % p, cwd=VERIF)
+    sh("./check %s --tier quick" % pid, cwd=VERIF)   # restore the clean tree's evidence file
+    try:
+        # ... the other properties' checks run on a scratch copy of the patched package, in parallel
+        def one(p):
+            rc, out = sh("./check %s --tier quick --root %s" % (p, d), cwd=VERIF)
+            return p, summarize(rc, out)
+        with cf.ThreadPoolExecutor(max_workers=8) as ex:
+            for p, v in ex.map(one, [p for p in props if p != pid]):
+                fired[p] = v
+    finally:
+        shutil.rmtree(d, ignore_errors=True)
     det = {p: v for p, v in fired.items() if v["exit"] == 1}
     unk = {p: v for p, v in fired.items() if v["exit"] == 2}
     meta["checks"] = {"ran": props, "detected_by": {p: v["rules"] for p, v in det.items()}, "undecided": sorted(unk),
